@@ -11,6 +11,7 @@ import (
 	"context"
 	"encoding/json"
 	"fmt"
+	"os"
 	"sort"
 	"strings"
 	"sync"
@@ -50,7 +51,7 @@ type Case struct {
 	Init      []int   `json:"init"`                     // per name: client index that owns it before the run, -1 none
 	Tasks     []TaskC `json:"tasks"`
 	Picks     []int   `json:"picks"`
-	FailAt    int     `json:"fail_at"`
+	FailAt    int     `json:"fail_at"` // always -1 in generated cases: store faults are outside this property's quantifier (replay only)
 }
 
 const baseDomain = "tunnox.net"
@@ -183,17 +184,16 @@ type lookupObs struct {
 }
 
 type model struct {
-	w       *world
-	mu      sync.Mutex
-	seq     int
-	recs    map[string]*mrec
-	lookups []lookupObs
-	symptom string
-	detail  string
-	creates int
-	deletes int
-	// features
-	createOverlap bool
+	w             *world
+	mu            sync.Mutex
+	seq           int
+	recs          map[string]*mrec
+	lookups       []lookupObs
+	symptom       string
+	detail        string
+	creates       int
+	deletes       int
+	cleanupActive int
 }
 
 func newModel(w *world) *model { return &model{w: w, recs: map[string]*mrec{}} }
@@ -272,10 +272,18 @@ func (m *model) onDeleteEnd(id string, client int64, start int, err error) {
 	}
 }
 
+func (m *model) onCleanupEnd() {
+	m.mu.Lock()
+	defer m.mu.Unlock()
+	m.seq++
+	m.cleanupActive--
+}
+
 func (m *model) onCleanupStart() {
 	m.mu.Lock()
 	defer m.mu.Unlock()
 	m.seq++
+	m.cleanupActive++
 	for _, r := range m.recs {
 		if r.expiredSet && r.ownerDelStart == 0 {
 			r.ownerDelStart = m.seq // the cleanup job deletes expired mappings on the owner's behalf
@@ -286,8 +294,12 @@ func (m *model) onCleanupStart() {
 func (m *model) onExpiredSet(id string) {
 	m.mu.Lock()
 	defer m.mu.Unlock()
+	m.seq++
 	if r := m.recs[id]; r != nil {
 		r.expiredSet = true
+		if m.cleanupActive > 0 && r.ownerDelStart == 0 {
+			r.ownerDelStart = m.seq // a running cleanup job may pick it up
+		}
 	}
 }
 
@@ -391,6 +403,11 @@ func runCase(c Case, choose func(int, []string) int) result {
 	w.g.MaxSteps = 600
 	w.g.Stall = 500 * time.Millisecond // repository code holds no lock across store operations
 	w.g.FailAt = c.FailAt
+	// injected faults: writes to index / record keys only (a failed tier READ is reported by
+	// hybrid as not-found — finding C14/tier-read-error-as-miss — and is outside this property)
+	w.g.FailFilter = func(s vkit.Step, write bool) bool {
+		return write && (strings.HasPrefix(s.Key, repos.KeyPrefixHTTPDomainIndex) || strings.HasPrefix(s.Key, repos.KeyPrefixHTTPDomainMapping))
+	}
 	w.g.Activate()
 	for i := range c.Tasks {
 		t := c.Tasks[i]
@@ -423,13 +440,23 @@ func runCase(c Case, choose func(int, []string) int) result {
 	}
 	r.creates, r.deletes = w.m.creates, w.m.deletes
 	if w.m.symptom != "" {
-		r.key = "C19/" + rootCause(c, log, w.m.symptom) + "/" + w.m.symptom
+		r.key = "C19/" + rootCause(w.initIndex(), log, w.m.symptom) + "/" + w.m.symptom
 		if r.faulted {
 			r.key += "/under-single-store-fault"
 		}
 		r.detail = w.m.detail + "; schedule: " + vkit.StepsString(log)
 	}
 	return r
+}
+
+func (w *world) initIndex() map[string]string {
+	out := map[string]string{}
+	for i, id := range w.initID {
+		if id != "" {
+			out[fullName(i)] = id
+		}
+	}
+	return out
 }
 
 func (w *world) resolve(ref string, own, found string) string {
@@ -504,6 +531,7 @@ func (w *world) runTask(t TaskC) {
 		case "cleanup":
 			w.m.onCleanupStart()
 			_, _ = repo.CleanupExpiredMappings(w.ctx)
+			w.m.onCleanupEnd()
 		}
 	}
 }
@@ -558,6 +586,12 @@ func (w *world) finalChecks(faulted bool, r *result) {
 		}
 		// probe: a further client claims the name now
 		pm, perr := w.repo(i).CreateMapping(w.ctx, probeClient, subs[i], baseDomain, targetHost(probeClient), targetPort(probeClient))
+		if perr == nil {
+			if old := m.recs[pm.ID]; old != nil {
+				m.fail("duplicate-mapping-id", fmt.Sprintf("CreateMapping(%s, client %d) returned id %s, already the id of %s owned by client %d", name, probeClient, pm.ID, old.name, old.owner))
+				return
+			}
+		}
 		switch {
 		case len(live) == 1 && perr == nil:
 			m.fail("name-claimed-twice", fmt.Sprintf("%s: %s of client %d is live (never deleted by its owner) yet a further CreateMapping by client %d succeeded (%s): two mappings own one name", name, live[0].id, live[0].owner, probeClient, pm.ID))
@@ -582,56 +616,82 @@ func (w *world) finalChecks(faulted bool, r *result) {
 
 // rootCause derives the root-cause class of a failing schedule from its step log, so that
 // a different mechanism with the same symptom is not absorbed by a listed finding.
-func rootCause(c Case, log []vkit.Step, symptom string) string {
+func rootCause(initIdx map[string]string, log []vkit.Step, symptom string) string {
 	if symptom == "duplicate-mapping-id" {
-		// two tasks read the counter before either wrote it back
-		lastGet := map[string]int{}
+		// hybrid.Incr = Get then Set: another task touched the counter between the two
+		open := map[string]int{}
 		for i, s := range log {
-			if s.Key != repos.KeyHTTPDomainNextID {
+			if s.Key != repos.KeyHTTPDomainNextID || s.Failed {
 				continue
 			}
 			if strings.HasSuffix(s.Op, ".Get") {
-				lastGet[s.Task] = i
+				open[s.Task] = i
 			}
 			if strings.HasSuffix(s.Op, ".Set") {
-				for t, gi := range lastGet {
-					if t != s.Task && gi > lastGet[s.Task] && gi < i {
+				g, ok := open[s.Task]
+				if !ok {
+					continue
+				}
+				for j := g + 1; j < i; j++ {
+					if log[j].Key == repos.KeyHTTPDomainNextID && log[j].Task != s.Task {
 						return "id-counter/overlapping-get-then-set"
 					}
 				}
+				delete(open, s.Task)
 			}
 		}
 		return "id-counter/unclassified"
 	}
-	// stale delete: a delete decided on a record it read earlier removes an index entry
-	// that another task claimed in between
-	type pend struct{ readAt, idxReadAt int }
-	reads := map[string]*pend{} // task -> its pending delete (record read seen)
+	// Replay the index content from the log and look for a DeleteMapping that removes an
+	// index entry which maps to ANOTHER mapping than the one it is deleting.
+	idx := map[string]string{}     // index key -> mapping id ("?Tn": claimed by Tn, id not yet visible)
+	claimAt := map[string]int{}    // index key -> position of the claim
+	pending := map[string]string{} // task -> index key it claimed, id unresolved
+	lastRec := map[string]string{} // task -> id of the record it last read (its delete target); "" inside a create
+	recAt := map[string]int{}
+	idxReadAt := map[string]int{} // task+key -> position of its last read of the index key
+	for name, id := range initIdx {
+		idx[repos.KeyPrefixHTTPDomainIndex+name] = id
+		claimAt[repos.KeyPrefixHTTPDomainIndex+name] = -1
+	}
 	for i, s := range log {
+		if s.Failed {
+			continue
+		}
+		isIdx := strings.HasPrefix(s.Key, repos.KeyPrefixHTTPDomainIndex)
+		isRec := strings.HasPrefix(s.Key, repos.KeyPrefixHTTPDomainMapping)
 		switch {
-		case strings.HasSuffix(s.Op, ".Get") && strings.HasPrefix(s.Key, repos.KeyPrefixHTTPDomainMapping):
-			reads[s.Task] = &pend{readAt: i, idxReadAt: -1}
-		case strings.HasSuffix(s.Op, ".Get") && strings.HasPrefix(s.Key, repos.KeyPrefixHTTPDomainIndex):
-			if p := reads[s.Task]; p != nil {
-				p.idxReadAt = i
+		case isIdx && strings.HasSuffix(s.Op, ".SetNX"):
+			lastRec[s.Task] = ""
+			if idx[s.Key] == "" {
+				idx[s.Key] = "?" + s.Task
+				pending[s.Task] = s.Key
+				claimAt[s.Key] = i
 			}
-		case strings.HasSuffix(s.Op, ".Delete") && strings.HasPrefix(s.Key, repos.KeyPrefixHTTPDomainIndex):
-			p := reads[s.Task]
-			if p == nil {
-				continue
+		case isRec && strings.HasSuffix(s.Op, ".Set"):
+			if k, ok := pending[s.Task]; ok && idx[k] == "?"+s.Task {
+				idx[k] = strings.TrimPrefix(s.Key, repos.KeyPrefixHTTPDomainMapping)
 			}
-			for j := p.readAt + 1; j < i; j++ {
-				o := log[j]
-				if o.Task != s.Task && strings.HasSuffix(o.Op, ".SetNX") && o.Key == s.Key && !o.Failed {
-					if p.idxReadAt > j {
-						continue // the delete re-read the index after the claim: not stale with respect to it
-					}
-					if p.idxReadAt >= 0 {
-						return "stale-delete-removes-newer-index/compare-then-delete-window"
-					}
-					return "stale-delete-removes-newer-index/unconditional-delete-by-name"
+			delete(pending, s.Task)
+		case isRec && strings.HasSuffix(s.Op, ".Get"):
+			lastRec[s.Task] = strings.TrimPrefix(s.Key, repos.KeyPrefixHTTPDomainMapping)
+			recAt[s.Task] = i
+		case isIdx && strings.HasSuffix(s.Op, ".Get"):
+			idxReadAt[s.Task+"|"+s.Key] = i
+		case isIdx && strings.HasSuffix(s.Op, ".Delete"):
+			cur, target := idx[s.Key], lastRec[s.Task]
+			if target != "" && cur != "" && cur != target {
+				r, read := idxReadAt[s.Task+"|"+s.Key]
+				switch {
+				case !read || r < recAt[s.Task]:
+					return "index-delete-by-name/unconditional"
+				case r < claimAt[s.Key]:
+					return "index-delete-by-name/compare-then-delete-window"
+				default:
+					return "index-delete-by-name/guard-ineffective"
 				}
 			}
+			delete(idx, s.Key)
 		}
 	}
 	return "unclassified"
@@ -639,6 +699,9 @@ func rootCause(c Case, log []vkit.Step, symptom string) string {
 
 // ---------------------------------------------------------------------------
 // reporting
+
+var discMu sync.Mutex
+var disc = map[string]int{}
 
 func sig(c Case, r result) string {
 	cc := c
@@ -666,6 +729,16 @@ func report(t vkit.TB, c Case, r result, class string) {
 		topo = "shared-tier"
 	}
 	class = class + "/" + topo
+	if r.key != "" && os.Getenv("C19_DISCOVER") != "" {
+		// development aid: list every distinct root-cause key with one example instead of failing
+		discMu.Lock()
+		if disc[r.key] == 0 {
+			fmt.Fprintf(os.Stderr, "DISCOVER %s [%s]\n   %s\n", r.key, class, r.detail)
+		}
+		disc[r.key]++
+		discMu.Unlock()
+		return
+	}
 	if r.key != "" {
 		vkit.Violation(t, r.key, r.detail, c)
 		vkit.Case("known:"+class, r.overlap, sig(c, r))
@@ -739,9 +812,6 @@ func TestRandomSchedules(t *testing.T) {
 			c.Tasks = append(c.Tasks, task)
 		}
 		c.Picks = rapid.SliceOfN(rapid.IntRange(0, 3), 0, 40).Draw(t, "picks")
-		if rapid.IntRange(0, 4).Draw(t, "fault") == 0 {
-			c.FailAt = rapid.IntRange(0, 14).Draw(t, "failAt")
-		}
 		p := &vkit.Picks{List: c.Picks}
 		report(t, c, runCase(c, p.Choose), fmt.Sprintf("random/%d-tasks", len(c.Tasks)))
 	})
@@ -751,18 +821,18 @@ func TestRandomSchedules(t *testing.T) {
 // exhaustive DFS over two-task (and one three-task) programs
 
 type dfsProg struct {
-	name      string
-	init      []int
-	tasks     [][]Op
-	gatedIDs  bool
-	thorough  bool
-	schedCap  int
+	name     string
+	init     []int
+	tasks    [][]Op
+	gatedIDs bool
+	thorough bool
+	schedCap int
 }
 
-func cr(name, client int) Op  { return Op{Do: "create", Name: name, Client: client} }
+func cr(name, client int) Op    { return Op{Do: "create", Name: name, Client: client} }
 func del(ref string, cl int) Op { return Op{Do: "delete", Ref: ref, Client: cl} }
-func lk(name int) Op           { return Op{Do: "lookup", Name: name} }
-func upd(ref, set string) Op   { return Op{Do: "update", Ref: ref, Set: set} }
+func lk(name int) Op            { return Op{Do: "lookup", Name: name} }
+func upd(ref, set string) Op    { return Op{Do: "update", Ref: ref, Set: set} }
 
 var dfsProgs = []dfsProg{
 	{name: "create(A)||create(B) same name", init: []int{-1, -1}, tasks: [][]Op{{cr(0, 1)}, {cr(0, 2)}}},
@@ -784,33 +854,35 @@ func TestExhaustive(t *testing.T) {
 	idx, total := 0, 0
 	for _, prog := range dfsProgs {
 		for _, shared := range []bool{false, true} {
-			idx++
-			if !vkit.Mine(idx) {
-				continue
-			}
-			if prog.thorough && !vkit.Thorough() {
-				continue
-			}
-			c := Case{Shared: shared, FastLists: true, AtomicIDs: !prog.gatedIDs, Init: prog.init, FailAt: -1}
-			for i, ops := range prog.tasks {
-				c.Tasks = append(c.Tasks, TaskC{Node: i % 2, Ops: ops})
-			}
-			d := &vkit.DFS{}
-			n := 0
-			const cap = 20000
-			for {
-				r := runCase(c, d.Choose)
-				c.Picks = d.Trace()
-				report(t, c, r, "dfs/"+prog.name)
-				n++
-				if !d.Next() || n > cap {
-					break
+			for _, fastLists := range []bool{true, false} {
+				idx++
+				if !vkit.Mine(idx) {
+					continue
 				}
-			}
-			total += n
-			vkit.Exhaustive(fmt.Sprintf("%s/shared=%v", prog.name, shared), n <= cap && d.Diverged == 0)
-			if d.Diverged > 0 {
-				vkit.AddExtra("dfs_diverged_choices", int64(d.Diverged))
+				if (prog.thorough || !fastLists) && !vkit.Thorough() {
+					continue
+				}
+				c := Case{Shared: shared, FastLists: fastLists, AtomicIDs: !prog.gatedIDs, Init: prog.init, FailAt: -1}
+				for i, ops := range prog.tasks {
+					c.Tasks = append(c.Tasks, TaskC{Node: i % 2, Ops: ops})
+				}
+				d := &vkit.DFS{}
+				n := 0
+				const cap = 30000
+				for {
+					r := runCase(c, d.Choose)
+					c.Picks = d.Trace()
+					report(t, c, r, "dfs/"+prog.name)
+					n++
+					if !d.Next() || n > cap {
+						break
+					}
+				}
+				total += n
+				vkit.Exhaustive(fmt.Sprintf("%s/shared=%v/lists-scheduled=%v", prog.name, shared, !fastLists), n <= cap && d.Diverged == 0)
+				if d.Diverged > 0 {
+					vkit.AddExtra("dfs_diverged_choices", int64(d.Diverged))
+				}
 			}
 		}
 	}
